@@ -334,14 +334,15 @@ def _chunk(chunk):
 
 
 def make_jobs(ctx):
-    nk = len(M.c04_kinematics(3))
+    nb = ctx.q(3, 4)
+    nk = len(M.c04_kinematics(nb))
     integs = ["Euler", "implicit", "implicitfast", "RK4"]
     jobs = []
     for k in range(nk):
         for level in ("lean", "full"):
             for energy in (0, 1):
                 for integ in integs:
-                    jobs.append(((3, k), level, energy, integ, ctx.q(2, 4), ctx.thorough))
+                    jobs.append(((nb, k), level, energy, integ, ctx.q(2, 4), ctx.thorough))
     for name, _ in M.C01_MODELS:
         for energy in (0, 1):
             for integ in integs:
@@ -361,14 +362,14 @@ def run(ctx):
         ctx.exhaustive = False
     core.pmap(ctx, _chunk, jobs, nchunks=min(len(jobs), core.NCPU * 8))
     ctx.extra["models"] = len(jobs)
-    ctx.rule = ("all rooted ordered forests with <=3 bodies (8 shapes) x covering joint assignments from %s (40 kinematic models) x "
+    ctx.rule = ("all rooted ordered forests with <=%d bodies x covering joint assignments from %s (%d kinematic models) x "
                 "{lean: actuators with activation + sensors of all stages; full: + floor contacts, limited tendons, equalities} x "
                 "energy flag {off,on} (+ the 12 feature models of C01: history buffers, plugins, mocap, muscle, ...) x integrator {Euler, implicit, implicitfast, RK4 (not oracle A); quick: oracles B-E only under Euler "
                 "and RK4} x (%d configurations x "
                 "{zero, mixed} velocity) x oracles A (27 edits x 2 rounds), B (stage NONE/POS/VEL x skipsensor 0/1 x 27 edits "
                 "x {only later-stage inputs edited, also qvel (and qpos for NONE)}), C (same with 3 qacc x 3 xfrc), D, E (27 edits x "
                 "warm start disabled/enabled). non-trivial = at least one input really edited and, for B/C, a stage really skipped"
-                % (M.C04_MENU, ctx.q(2, 4)))
+                % (ctx.q(3, 4), M.C04_MENU, len(M.c04_kinematics(ctx.q(3, 4))), ctx.q(2, 4)))
     ctx.assumptions = ["sleep disabled (documented to break the stage assumptions)", "no control callback installed",
                        "reference for skipsensor=1 is the full call with skipsensor=1",
                        "dead arena memory filled with the same byte in both objects so that allocated-but-unwritten arena "
@@ -385,8 +386,8 @@ def replay(ctx, path):
     if r["parents"] == "feature":
         ki = ("feat", r["joints"])
     else:
-        ks = M.c04_kinematics(3)
-        ki = (3, [i for i, (p, j) in enumerate(ks) if list(p) == list(r["parents"]) and list(j) == list(r["joints"])][0])
+        ks = M.c04_kinematics(4)
+        ki = (4, [i for i, (p, j) in enumerate(ks) if list(p) == list(r["parents"]) and list(j) == list(r["joints"])][0])
     check_model(lib, part, (ki, r["level"], r["energy"], r["integrator"], 4, True))
     ctx.merge(part)
     ctx.rule = "replay of one model"
